@@ -24,6 +24,11 @@ JRegex(e) ==
           \cup (IF Has(e, "R") THEN Chk(FA!Lang(FA!Aut(e.R), alph, e.L) = p.lang, "Regex.to_epsilon_nfa") ELSE Fl("Regex.to_epsilon_nfa.noexc"))
           \cup (IF Has(e, "G") THEN Chk({ Strip(w) : w \in CF!Lang(CF!Gram(e.G), e.L) } = p.lang, "Regex.to_cfg") ELSE Fl("Regex.to_cfg.noexc"))
           \cup (IF Has(e, "stracc") THEN Chk(ToSet(e.stracc) = p.lang, "Regex.str_roundtrip") ELSE Fl("Regex.str_roundtrip.noexc"))
+(* to_cfg asked again on the same object, with another starting symbol: the grammar of the same language *)
+JCfgAgain(e) ==
+  LET p == Parse(e.toks, e.L) IN
+  IF p.class # "WF" THEN U("Regex.to_cfg")
+  ELSE IF Has(e, "G") THEN Chk({ Strip(w) : w \in CF!Lang(CF!Gram(e.G), e.L) } = p.lang, "Regex.to_cfg") ELSE Fl("Regex.to_cfg.noexc")
 JComb(e) ==
   LET pa == Parse(e.toksA, e.L)
       pb == IF Has(e, "toksB") THEN Parse(e.toksB, e.L) ELSE pa
@@ -36,6 +41,7 @@ JComb(e) ==
              \cup Chk(ToSet(e.accA) = pa.lang /\ ToSet(e.accB) = pb.lang, e.op \o ".operands_unchanged")
 Judge(e) ==
   CASE e.op = "regex" -> JRegex(e)
+    [] e.op = "regex_cfg_again" -> JCfgAgain(e)
     [] e.op \in {"regex_union", "regex_or", "regex_concatenate", "regex_add", "regex_kleene_star"} -> JComb(e)
     [] OTHER -> Fl("unknown-op")
 
